@@ -2,7 +2,7 @@
     Only statements live here; each is closed by [exact] of a lemma proved in coq/UDial. *)
 From Coq Require Import List ZArith Bool Permutation.
 From V Require Import Gen.Params Lib.Hex Wire.Varint USpec.Model USpec.Proofs USpec.ProofsWire
-  UDial.Model UDial.Proofs UDial.Witness UDial.Retx UDial.ProofsRetx UDial.Reg UDial.ProofsReg.
+  UDial.Model UDial.Proofs UDial.Witness UDial.Retx UDial.ProofsRetx UDial.Reg UDial.ProofsReg UDial.Heap UDial.ProofsHeap.
 Import ListNotations.
 Open Scope Z_scope.
 
@@ -28,7 +28,9 @@ Proof. exact dial_k_wire_scid. Qed.
 Print Assumptions C02_dial_k_wire_scid.
 
 (** (c) Dial after dial: the k-th dial of a history is exactly the FIRST dial of the spec as the
-    caller wrote it (with the caller's edits so far) -- same wire, same own view, spec unchanged. *)
+    caller wrote it (with the caller's edits so far) -- same wire, same own view, spec unchanged.
+    In this value-level model "spec unchanged" holds by construction of [dial]; that the code's
+    writes really go to objects of the connection's own is C02_dial_leaves_spec_objects below. *)
 Theorem C02_redial_as_first : forall ops1 st scid o ops2 st' views,
   run st (ops1 ++ ODial scid o :: ops2) = Some (st', views) ->
   exists w, dial (edits st ops1) scid o = Some (edits st ops1, w) /\
@@ -59,10 +61,14 @@ Theorem C02_dial_idempotent_params : forall sup rnd js1 js2 ps,
 Proof. exact dial_list_idem. Qed.
 Print Assumptions C02_dial_idempotent_params.
 
-(** (d) UTransport with a nil QUICSpec builds exactly the plain Transport's connection. *)
-Theorem C02_nil_spec : forall e, u_dial e None = plain_dial e.
+(** (d) UTransport with a nil QUICSpec builds exactly the plain Transport's connection -- BY
+    CONSTRUCTION of the model: u_dial follows UTransport.dial/doDial statement by statement, and
+    with spec = nil every spec-dependent statement is skipped, which leaves the statements of
+    Transport.dial/doDial. The proof is a computation; clause (d) is carried by the NilSpec
+    correspondence cases and the simdial differential, not by this statement. *)
+Theorem C02_nil_spec_by_construction : forall e, u_dial e None = plain_dial e.
 Proof. exact nil_spec_is_plain. Qed.
-Print Assumptions C02_nil_spec.
+Print Assumptions C02_nil_spec_by_construction.
 
 (** The code before the repair (legacy_dial: the same steps on the spec's OWN extension
     objects): whatever the second dial's inputs, its extension 57 is byte for byte the first
@@ -110,11 +116,13 @@ Proof. exact pop_check_covers. Qed.
 Print Assumptions C02_initial_retx_resent_is_lost.
 
 (** ... no packing call, loss or acknowledgement ends in an error, whatever the builder, the
-    layout, the ranges taken ... *)
-Theorem C02_initial_retx_never_errors : forall planned layout st o st' res,
+    layout, the ranges taken -- BY CONSTRUCTION: the model of the repaired MarshalInitialPacketPayload
+    has no error branch left (the old one is C02_initial_retx_legacy_error_iff); that the code has
+    none is what the Retx correspondence (result of every packing call) and the monitors check ... *)
+Theorem C02_initial_retx_never_errors_by_construction : forall planned layout st o st' res,
   rstep planned layout st o = Some (st', res) -> is_err res = false.
 Proof. exact rstep_never_errors. Qed.
-Print Assumptions C02_initial_retx_never_errors.
+Print Assumptions C02_initial_retx_never_errors_by_construction.
 
 (** ... and for EVERY history of losses, acknowledgements and packing calls no result is an
     error and every ClientHello byte the first flight carried is still acknowledged, outstanding
@@ -126,14 +134,17 @@ Theorem C02_initial_retx_complete : forall planned layout flight n ops st' rs,
 Proof. exact flight_stays_covered. Qed.
 Print Assumptions C02_initial_retx_complete.
 
-(** The spec's frame builder is consulted only for ONE contiguous, non-empty slice of the
-    ClientHello which a QUICFrames layout fits -- never for a PING-only probe, a retransmission
-    with a gap, a slice shorter than the layout, or after a planned flight. *)
+(** The decision of MarshalInitialPacketPayload, both directions: the spec's frame builder is
+    consulted exactly for ONE contiguous, non-empty slice of the ClientHello which a QUICFrames
+    layout fits, outside a planned flight -- hence never for a PING-only probe, a retransmission
+    with a gap, a slice shorter than the layout, or after a planned flight. (A characterisation of
+    [marshal_path], the transcription of cryptoFramesFormOneRange / quicFramesLayoutFits; the tie
+    is the path check of the Retx correspondence.) *)
 Theorem C02_initial_retx_builder_precondition : forall planned layout frames,
-  marshal_path planned layout frames = Reframed ->
+  marshal_path planned layout frames = Reframed <->
   planned = false /\ 0 < total_len frames /\ contiguous frames = true /\
-  (forall l, layout = Some l -> layout_fits l (total_len frames) = true).
-Proof. exact reframed_only_one_range. Qed.
+  match layout with Some l => layout_fits l (total_len frames) = true | None => True end.
+Proof. exact reframed_iff. Qed.
 Print Assumptions C02_initial_retx_builder_precondition.
 
 (** Before the repair (legacy_rstep) a packing call erred exactly when no flight builder planned
@@ -173,21 +184,62 @@ Example C02_ex_layouts :
 Proof. exact layout_examples. Qed.
 Print Assumptions C02_ex_layouts.
 
-(** (c) Registration (model UDial.Reg of doDial's handler-map write, ReplaceWithClosed with its
-    guarded expiry, Remove): from the moment doDial registered dial k under its source connection
-    ID, packets with that ID are routed to dial k -- from ANY earlier state of the map (whatever
-    dials 1..k-1 left behind: closed-connection entries, armed timers) and through ANY later
-    sequence of timer expiries and of operations under other IDs. *)
+(** (c) Registration (model UDial.Reg of doDial's handler-map registration, ReplaceWithClosed with
+    its guarded expiry, Remove). A dial is accepted unless the source connection ID belongs to a
+    connection that is still OPEN -- whatever closed connections left behind (closed-connection
+    entries, armed timers) never makes it fail ... *)
+Theorem C02_dial_accepted_unless_open : forall st k id,
+  snd (rgdial st k id) = true <-> (forall j, route st id <> Some (Live j)).
+Proof. exact dial_accepted_unless_open. Qed.
+Print Assumptions C02_dial_accepted_unless_open.
+
+(** ... and an accepted dial k owns its ID: from ANY earlier state of the map, through ANY later
+    sequence of enabled operations -- other dials under the same ID (refused), closes and destroys
+    of other connections, every timer expiry -- packets with that ID are routed to connection k,
+    until connection k itself is closed or destroyed. (Enabled: a connection is closed or destroyed
+    only while it is the open connection registered under its ID.) A refused dial changes nothing
+    and leaves the open connection its entry. *)
 Theorem C02_redial_registered : forall ops st k id,
-  Forall (harmless id) ops ->
-  route (rgrun (rgstep st (RgDial k id)) ops) id = Some (Live k).
+  snd (rgdial st k id) = true ->
+  wf_run (fst (rgdial st k id)) ops = true ->
+  Forall (not_own_end k id) ops ->
+  route (rgrun (fst (rgdial st k id)) ops) id = Some (Live k).
 Proof. exact redial_registered. Qed.
 Print Assumptions C02_redial_registered.
 
-(** A gracefully closed connection's entry is removed by its own timer (no leak). *)
-Theorem C02_tombstone_expires : forall st k id,
-  route (rgstep (rgstep st (RgClose k id)) (RgExpire k id)) id = None.
-Proof. exact tombstone_expires. Qed.
+Theorem C02_dial_result : forall st k id,
+  (snd (rgdial st k id) = true -> route (fst (rgdial st k id)) id = Some (Live k)) /\
+  (snd (rgdial st k id) = false -> fst (rgdial st k id) = st /\ exists j, route st id = Some (Live j)).
+Proof. exact rgdial_result. Qed.
+Print Assumptions C02_dial_result.
+
+Example C02_ex_redial_history :
+  let st := rgrun (RG [] []) [RgDial 1 0; RgClose 1 0] in
+  let ops := [RgExpire 1 0; RgDial 3 0; RgDial 4 7; RgClose 4 7] in
+  snd (rgdial st 2 0) = true /\ wf_run (fst (rgdial st 2 0)) ops = true /\
+  Forall (not_own_end 2 0) ops /\ route (rgrun (fst (rgdial st 2 0)) ops) 0 = Some (Live 2).
+Proof. exact redial_history_ok. Qed.
+Print Assumptions C02_ex_redial_history.
+
+(** Regression: before fixes/C02-empty-scid-one-open-connection.patch a dial overwrote the entry of
+    an OPEN connection with the same (zero-length) ID; the end of that connection then cut the
+    new one off as well. *)
+Example C02_ex_overlap_refuted :
+  let st1 := rgstep (RG [] []) (RgDial 1 0) in
+  let st2 := overwrite_dial st1 2 0 in
+  route st2 0 = Some (Live 2) /\
+  route (rgstep st2 (RgDestroy 1 0)) 0 = None /\
+  route (rgstep st2 (RgClose 1 0)) 0 = Some (Tomb 1) /\
+  rgdial st1 2 0 = (st1, false) /\ route st1 0 = Some (Live 1).
+Proof. exact overlap_refuted. Qed.
+Print Assumptions C02_ex_overlap_refuted.
+
+(** A gracefully closed connection's entry goes away when ITS timer fires (no leak), from any
+    state, whatever happens under other IDs and whichever other timers fire in between. *)
+Theorem C02_tombstone_expires : forall ops st k id,
+  Forall (elsewhere id) ops ->
+  route (rgstep (rgrun (rgstep st (RgClose k id)) ops) (RgExpire k id)) id = None.
+Proof. exact tombstone_expires_reachable. Qed.
 Print Assumptions C02_tombstone_expires.
 
 (** Regressions: on the history dial 1, close 1, dial 2 (same ID, e.g. the empty one) the timer
@@ -211,13 +263,43 @@ Print Assumptions C02_ex_add_dial_refuted.
 
 (** (b) A spec-driven Initial packet that carries frames (a retransmission, a PING probe) shares
     its datagram with nothing, whether or not Handshake data is ready (PackCoalescedPacket after
-    fixes/C02-spec-initial-travels-alone.patch); before, the Handshake packet was put behind it. *)
-Theorem C02_spec_initial_travels_alone : forall frames ping hs,
+    fixes/C02-spec-initial-travels-alone.patch); before, the Handshake packet was put behind it.
+    BY CONSTRUCTION: [coalesced_count] is the transcription of that decision; the tie is the
+    RCoalesce correspondence (number of packets in the real datagram). *)
+Theorem C02_spec_initial_travels_alone_by_construction : forall frames ping hs,
   frames <> [] \/ ping = true -> coalesced_count frames ping hs = 1.
 Proof. exact spec_initial_travels_alone. Qed.
-Print Assumptions C02_spec_initial_travels_alone.
+Print Assumptions C02_spec_initial_travels_alone_by_construction.
 
 Example C02_ex_legacy_coalesced :
   legacy_coalesced_count [(0, 300)] false true = 2 /\ coalesced_count [(0, 300)] false true = 1.
 Proof. exact legacy_coalesced. Qed.
 Print Assumptions C02_ex_legacy_coalesced.
+
+(** (c) The ClientHelloSpec as objects (model UDial.Heap): uTLS and the connection set-up write into
+    the extension objects they are handed (transport parameter list and byte cache, key shares,
+    server name); the repaired newUClientConnection hands them objects it allocated itself
+    (dialClientHelloSpec). Every object that existed before the dial -- the spec's own, shared
+    ones included -- is the same afterwards ... *)
+Theorem C02_dial_leaves_spec_objects : forall sup rnd scid o h exts h2 own,
+  heap_dial sup rnd scid o h exts = Some (h2, own) ->
+  forall b, (b < length h)%nat -> hget h2 b = hget h b.
+Proof. exact heap_dial_leaves_old. Qed.
+Print Assumptions C02_dial_leaves_spec_objects.
+
+(** ... the connection's own transport parameter object holds exactly what the value-level model
+    UDial.Model.dial puts on the wire (so the theorems above speak about this dial) ... *)
+Theorem C02_dial_heap_wire : forall sup rnd scid o ps cache h2 own,
+  heap_dial sup rnd scid o [OTP ps cache] [0%nat] = Some (h2, own) ->
+  exists v ps' ov, USpec.Model.dial sup rnd (oJs o) scid ps = Some (v, ps', ov) /\
+    own = [1%nat] /\ hget h2 1 = OTP ps' (Some (marshal ps')) /\ hget h2 0 = OTP ps cache.
+Proof. exact heap_dial_wire. Qed.
+Print Assumptions C02_dial_heap_wire.
+
+(** ... whereas before the repair the spec's own object was rewritten and its bytes cached. *)
+Theorem C02_legacy_dial_writes_spec_object : forall sup rnd scid o ps h2 own,
+  legacy_heap_dial sup rnd scid o [OTP ps None] [0%nat] = Some (h2, own) ->
+  exists v ps' ov, USpec.Model.dial sup rnd (oJs o) scid ps = Some (v, ps', ov) /\
+    hget h2 0 = OTP ps' (Some (marshal ps')).
+Proof. exact legacy_heap_dial_writes_spec. Qed.
+Print Assumptions C02_legacy_dial_writes_spec_object.
